@@ -308,7 +308,8 @@ fn kind_ops<F: FftField + PrimeField, D: Dom<F>>(id: &str, caps: &Caps, thorough
         return;
     }
     // ---- vanishing polynomial, Lagrange coefficients
-    for &m in sizes.iter().filter(|&&m| m <= caps.point_max || m == 256 || (thorough && m == 1024)) {
+    let big_quick = F::MODULUS_BIT_SIZE > 128 && !thorough; // quick tier: the O(n²) size-256 Lagrange check only on the small fields
+    for &m in sizes.iter().filter(|&&m| m <= caps.point_max || (m == 256 && !big_quick) || (thorough && m == 1024)) {
         let d = D::new(m).unwrap();
         for off in [F::one(), F::GENERATOR, rnz(rng)] {
             let cd = d.get_coset(off).unwrap();
@@ -327,7 +328,7 @@ fn kind_ops<F: FftField + PrimeField, D: Dom<F>>(id: &str, caps: &Caps, thorough
         }
     }
     // ---- filter polynomial, re-indexing
-    let small: Vec<usize> = sizes.iter().copied().filter(|&m| m <= if thorough { 36 } else { 18 }).collect();
+    let small: Vec<usize> = sizes.iter().copied().filter(|&m| m <= if thorough { 36 } else if big_quick { 12 } else { 18 }).collect();
     for &n in &small {
         let d = D::new(n).unwrap();
         for &m in sizes.iter().filter(|&&m| m <= 2 * n.max(2)) {
@@ -440,10 +441,10 @@ fn main() {
     field_ops::<M2593>("m2593", c(36, 108, 864, 2592, 54), th, rng, out, only);
     field_ops::<M2593B>("m2593b", c(18, 36, 288, 288, 36), th, rng, out, only);
     // shipped fields
-    field_ops::<bls12_381::Fr>("bls381fr", c(32, 64, 1 << 11, 1 << 13, 32), th, rng, out, only);
-    field_ops::<bn384::Fq>("bn384fq", c(16, 36, 1 << 9, 1 << 12, 18), th, rng, out, only);
+    field_ops::<bls12_381::Fr>("bls381fr", c(16, 64, 1 << 10, 1 << 13, 32), th, rng, out, only);
+    field_ops::<bn384::Fq>("bn384fq", c(12, 36, 1 << 8, 1 << 12, 18), th, rng, out, only);
     field_ops::<bn384::Fr>("bn384fr", Caps { light: true, ..c(0, 0, 1 << 8, 1 << 10, 0) }, th, rng, out, only);
-    field_ops::<mnt4_753::Fr>("mnt4753fr", c(10, 32, 1 << 9, 1 << 11, 10), th, rng, out, only);
+    field_ops::<mnt4_753::Fr>("mnt4753fr", c(8, 32, 1 << 8, 1 << 11, 10), th, rng, out, only);
     field_ops::<mnt4_753::Fq>("mnt4753fq", Caps { light: true, ..c(0, 0, 1 << 8, 1 << 9, 0) }, th, rng, out, only);
     field_ops::<secp256k1::Fr>("secp256k1fr", Caps { light: true, ..c(0, 0, 64, 64, 0) }, th, rng, out, only);
     out.flush();
